@@ -132,3 +132,20 @@ pub fn lift_k4(w: u64) -> u64 {
     let lift = |n: u64| if n < 8 { n } else { (1u64 << 32) - 16 + n };
     (lift((w >> 4) & 15) << 32) | lift(w & 15)
 }
+
+/// common `main`: dispatch `argv[1]` with the remaining arguments; Err => exit 2 (tool error).
+pub fn run_main(f: impl FnOnce(&str, &[String]) -> anyhow::Result<()>) -> std::process::ExitCode {
+    let args: Vec<String> = std::env::args().skip(1).collect();
+    if args.is_empty() {
+        eprintln!("usage: <bin> <command> [args]");
+        return std::process::ExitCode::from(2);
+    }
+    install_quiet_panic_hook();
+    match f(args[0].as_str(), &args[1..]) {
+        Ok(()) => std::process::ExitCode::SUCCESS,
+        Err(e) => {
+            eprintln!("harness error: {e:#}");
+            std::process::ExitCode::from(2)
+        }
+    }
+}
